@@ -20,6 +20,54 @@ import (
 type c19Input struct {
 	Amount string `json:"amount"` // decimal string, FUND (Dir fund2nund) or integer nund (Dir nund2fund)
 	Dir    string `json:"dir"`
+	// Plain: when Amount is another spelling of a decimal (leading '+', trailing point, bare fraction, exponent
+	// notation), the same value as plain digits[.digits]; the exact results are computed from it.
+	Plain string `json:"plain,omitempty"`
+}
+
+const rejectedSpelling = "REJECTED-SPELLING"
+
+// spell writes the plain decimal (digits[.digits]) in another way that denotes the same value.
+func spell(t *rapid.T, plain string) string {
+	intPart, frac := plain, ""
+	if i := strings.IndexByte(plain, '.'); i >= 0 {
+		intPart, frac = plain[:i], plain[i+1:]
+	}
+	switch rapid.IntRange(0, 5).Draw(t, "spelling") {
+	case 0:
+		return "+" + plain
+	case 1:
+		if frac == "" {
+			return plain + "."
+		}
+	case 2:
+		if strings.Trim(intPart, "0") == "" && frac != "" {
+			return "." + frac
+		}
+	}
+	// exponent notation: the digits with the point somewhere else, and the power of ten that puts it back
+	digits := intPart + frac
+	f2 := rapid.IntRange(0, len(digits)).Draw(t, "pointAt") // fractional digits of the mantissa
+	exp := f2 - len(frac)
+	m := digits[:len(digits)-f2]
+	if m == "" {
+		m = "0"
+	}
+	if f2 > 0 {
+		m += "." + digits[len(digits)-f2:]
+	}
+	e := rapid.SampledFrom([]string{"e", "E"}).Draw(t, "e")
+	sign := ""
+	if exp < 0 {
+		sign, exp = "-", -exp
+	} else if rapid.Bool().Draw(t, "plusExp") {
+		sign = "+"
+	}
+	out := fmt.Sprintf("%s%s%s%d", m, e, sign, exp)
+	if rapid.IntRange(0, 5).Draw(t, "plusMantissa") == 0 {
+		out = "+" + out
+	}
+	return out
 }
 
 var e9 = new(big.Int).Exp(big.NewInt(10), big.NewInt(9), nil)
@@ -65,20 +113,27 @@ func convertViaCommand(amount, from, to string) (string, error) {
 
 // checkC19 checks the conversion function and, through it, what the command prints.
 func checkC19(in c19Input) string {
-	if msg := checkC19With(in, undtypes.ConvertUndDenomination, "ConvertUndDenomination"); msg != "" {
+	if msg := checkC19With(in, undtypes.ConvertUndDenomination, "ConvertUndDenomination"); msg != "" && msg != rejectedSpelling {
 		return msg
 	}
 	return checkC19With(in, convertViaCommand, "`und convert`")
 }
 
 func checkC19With(in c19Input, convert func(amount, from, to string) (string, error), via string) string {
+	plain := in.Amount
+	if in.Plain != "" {
+		plain = in.Plain
+	}
 	switch in.Dir {
 	case "fund2nund":
 		got, err := convert(in.Amount, "fund", "nund")
 		if err != nil {
+			if in.Plain != "" {
+				return rejectedSpelling // the command does not take this spelling: nothing is yielded, nothing is claimed
+			}
 			return fmt.Sprintf("%s: convert %q fund->nund failed: %v", via, in.Amount, err)
 		}
-		want := exactFundToNund(in.Amount)
+		want := exactFundToNund(plain)
 		if got != want {
 			return fmt.Sprintf("%s: convert %s fund -> %s, exact result is %s", via, in.Amount, got, want)
 		}
@@ -93,16 +148,19 @@ func checkC19With(in c19Input, convert func(amount, from, to string) (string, er
 	case "nund2fund":
 		got, err := convert(in.Amount, "nund", "fund")
 		if err != nil {
+			if in.Plain != "" {
+				return rejectedSpelling
+			}
 			return fmt.Sprintf("%s: convert %q nund->fund failed: %v", via, in.Amount, err)
 		}
-		if want := exactNundToFund(in.Amount); got != want {
+		if want := exactNundToFund(plain); got != want {
 			return fmt.Sprintf("%s: convert %s nund -> %s, exact result is %s", via, in.Amount, got, want)
 		}
 		back, err := convert(strings.TrimSuffix(got, "fund"), "fund", "nund")
 		if err != nil {
 			return fmt.Sprintf("convert back %q fund->nund failed: %v", got, err)
 		}
-		v, _ := new(big.Int).SetString(in.Amount, 10)
+		v, _ := new(big.Int).SetString(plain, 10)
 		if back != v.String()+"nund" {
 			return fmt.Sprintf("%s nund -> %s -> %s: the round trip does not return the original amount", in.Amount, got, back)
 		}
@@ -124,7 +182,7 @@ func genDigits(t *rapid.T, min, max int, label string) string {
 
 func TestC19(t *testing.T) {
 	ev := sim.NewEvidence("C19", "decimal string with > 15 significant digits or a non-zero ninth fractional digit; distinct by input string",
-		"inputs are plain non-negative decimals (no exponent / hex / inf syntax), integer part 1-21 digits, 0-9 fractional digits; nund inputs are integers")
+		"inputs are non-negative decimals, integer part 1-21 digits, 0-9 fractional digits, nund inputs integer-valued; a quarter of them are written in another spelling of the same value (leading '+', trailing point, bare fraction, exponent notation with the point moved): a spelling the command refuses is counted and not judged; hex / inf / nan syntax is not generated")
 	fk := &failKeeper{prop: "C19"}
 	defer ev.Flush()
 	rapid.Check(t, func(rt *rapid.T) {
@@ -160,9 +218,22 @@ func TestC19(t *testing.T) {
 			in.Dir = "nund2fund"
 			in.Amount = intPart
 		}
-		sig := strings.TrimLeft(strings.ReplaceAll(in.Amount, ".", ""), "0")
+		plainAmt := in.Amount
+		if rapid.IntRange(0, 3).Draw(rt, "respell") == 0 {
+			// the same value written differently (what ParseFloat-style parsers take): sign, trailing point, bare fraction, exponent
+			in.Plain = in.Amount
+			in.Amount = spell(rt, in.Plain)
+			ev.Count("c19.other-spelling", 1)
+			if strings.ContainsAny(in.Amount, "eE") {
+				ev.Count("c19.other-spelling.exponent", 1)
+				if strings.Contains(in.Amount, ".") {
+					ev.Count("c19.other-spelling.exponent-and-point", 1)
+				}
+			}
+		}
+		sig := strings.TrimLeft(strings.ReplaceAll(plainAmt, ".", ""), "0")
 		ninth := false
-		if i := strings.IndexByte(in.Amount, '.'); i >= 0 && len(in.Amount)-i-1 == 9 && in.Amount[len(in.Amount)-1] != '0' {
+		if i := strings.IndexByte(plainAmt, '.'); i >= 0 && len(plainAmt)-i-1 == 9 && plainAmt[len(plainAmt)-1] != '0' {
 			ninth = true
 		}
 		nt := len(sig) > 15 || ninth
@@ -175,7 +246,15 @@ func TestC19(t *testing.T) {
 		}
 		ev.Count("c19."+in.Dir, 1)
 		ev.Sample(in, 6)
-		if msg := checkC19(in); msg != "" {
+		msg := checkC19(in)
+		if msg == rejectedSpelling {
+			ev.Count("c19.other-spelling.refused-by-the-command", 1)
+			return
+		}
+		if in.Plain != "" {
+			ev.Count("c19.other-spelling.accepted", 1)
+		}
+		if msg != "" {
 			fk.offer(in, msg)
 			rt.Fatalf("C19 violated: %s", msg)
 		}
@@ -206,7 +285,7 @@ func FuzzC19(f *testing.F) {
 		} else if strings.HasSuffix(s, ".") {
 			t.Skip()
 		}
-		if msg := checkC19(in); msg != "" {
+		if msg := checkC19(in); msg != "" && msg != rejectedSpelling {
 			t.Fatalf("C19 violated: %s", msg)
 		}
 	})
